@@ -120,6 +120,11 @@ class Ctx:
 
     def unproved(self, name, why, details=None):
         """a proof obligation or a correspondence that no longer checks, with no failing input found"""
+        self._unproved_count = getattr(self, "_unproved_count", {})
+        self._unproved_count[name] = self._unproved_count.get(name, 0) + 1
+        if self._unproved_count[name] > 5:
+            self.cov.setdefault("further_reports_of_the_same_obligation", {})[name] = self._unproved_count[name] - 5
+            return
         d = self.replay_dir()
         (d / "replay.json").write_text(json.dumps({
             "property": self.pid, "no_longer_checks": name, "why": why, "details": details or {},
